@@ -112,18 +112,33 @@ def check_group(arg):
     if acl.tcam_count() != tcam0:
         bad("tcam-perm", "tcam_count changed by reordering")
     # resequence, shuffle, sort restores the numbered order
-    acl.resequence(10, 10)
-    numbered = flat_lines(acl)
-    tops = list(acl.items)
-    rnd.shuffle(tops)
-    acl.items.clear()
-    acl.items.extend(tops)
-    acl.sort()
-    if flat_lines(acl) != numbered:
-        bad("sort", f"sort() after resequence does not restore the numbered order: {flat_lines(acl)} vs {numbered}")
+    for start, step in ((10, 10), (5, 5), (95, 10), (1, 3)):     # numbers with different digit counts as well
+        acl.resequence(start, step)
+        numbered = flat_lines(acl)
+        tops = list(acl.items)
+        for _ in range(3):
+            rnd.shuffle(tops)
+            acl.items.clear()
+            acl.items.extend(tops)
+            acl.sort()
+            if flat_lines(acl) != numbered:
+                bad("sort", f"sort() after resequence({start}, {step}) does not restore the numbered order: {flat_lines(acl)} vs {numbered}")
+                break
     if acl.tcam_count() != tcam0:
         bad("tcam-seq", "tcam_count changed by renumbering/sorting")
     acl.ungroup()
+    # the same on the flat ACL: every item is a top-level item
+    for start, step in ((5, 5), (95, 10)):
+        acl.resequence(start, step)
+        numbered = flat_lines(acl)
+        tops = list(acl.items)
+        rnd.shuffle(tops)
+        acl.items.clear()
+        acl.items.extend(tops)
+        acl.sort()
+        if flat_lines(acl) != numbered:
+            bad("sort-flat", f"sort() after resequence({start}, {step}) on the ungrouped ACL does not restore the numbered order: {flat_lines(acl)} vs {numbered}")
+            break
     if sorted(strip(l) for l in flat_lines(acl)) != sorted(lines):
         bad("multiset-ungroup", f"ungroup() changed the entries: {flat_lines(acl)}")
     return fails, 1
